@@ -26,6 +26,12 @@ def _sizes_premise(env, sizes):
     return [env(n) >= 0 for n in sizes]
 
 
+def _case_premise(C, sizes):
+    """the assumptions of one case of the comparisons the code made on its extents (those about the extents alone)"""
+    only = [c for c in C.assumed if all(n in sizes for n in set(c[1].t) | set(c[2].t))]
+    return (lambda env: [G._cons_z3(only, env)]) if only else None
+
+
 def _cex(mdl):
     """z3 model text '[na = 3, nk = 0, ...]' -> counterexample record (extents for the native replay)"""
     if not mdl:
@@ -235,15 +241,19 @@ class MomentRecursionAnyL:
         A, B, Cm = M.vec("A", 3), M.vec("B", 3), M.vec("C", 3)
         ea, eb = M.vec("a", Ka, "pos"), M.vec("b", Kb, "pos")
         sizes = ["nk", "nb", "na"]
-        C = G.Ctx(sizes)
-        G.CTX[0] = C
-        try:
+
+        def body(C_):
             with bind.patched((mod, "np", G.GNp(mod.np)), (mod, "range", G.grange)):
-                out = mod._compute_multipole_moment_integrals_intermediate(Cm, G.Aff.var("nk"), A, G.Aff.var("na"), ea, B, G.Aff.var("nb"), eb)
-        finally:
-            G.CTX[0] = None
-        M.true("anyL/returns-the-table", isinstance(out, G.GArray) and [d.key() for d in out.dims] == [(G.Aff.var(n) + 1).key() for n in sizes]
+                return mod._compute_multipole_moment_integrals_intermediate(Cm, G.Aff.var("nk"), A, G.Aff.var("na"), ea, B, G.Aff.var("nb"), eb)
+
+        cases = G.run_cases(sizes, body)
+        for cn, (C, out) in enumerate(cases):
+            self._check_case(M, C, out, sizes, Ka, Kb, A, B, Cm, ea, eb, "anyL" if len(cases) == 1 else "anyL/case%d" % cn)
+
+    def _check_case(self, M, C, out, sizes, Ka, Kb, A, B, Cm, ea, eb, pfx):
+        M.true(pfx + "/returns-the-table", isinstance(out, G.GArray) and [d.key() for d in out.dims] == [(G.Aff.var(n) + 1).key() for n in sizes]
                and out.tail == (3, Kb, Ka), "shape (n_k+1, n_b+1, n_a+1, 3, K_b, K_a)")
+        case_prem = _case_premise(C, sizes)
         tails = list(itertools.product(range(3), range(Kb), range(Ka)))
 
         def geom(x, pb, pa):
@@ -280,7 +290,7 @@ class MomentRecursionAnyL:
 
         import z3
 
-        check_events(M, C, sizes, tails, candidates, base_case,
+        check_events(M, C, sizes, tails, candidates, base_case, pfx=pfx, extra_prem=case_prem,
                      full_box=lambda env, k, j, i: [k >= 0, k <= env("nk"), j >= 0, j <= env("nb"), i >= 0, i <= env("na")])
 
 
@@ -350,20 +360,26 @@ class DiffRecursionAnyL:
         ea, eb = M.vec("a", Ka, "pos"), M.vec("b", Kb, "pos")
         sizes = ["nd", "nb", "na"]
         nd, nb, na = (G.Aff.var(n) for n in sizes)
-        C = G.Ctx(sizes)
-        G.CTX[0] = C
-        seen = {}
+        def body(C_):
+            seen_ = {}
 
-        def callee(coord_moment, order_moment_max, coord_a, angmom_a_max, exps_a, coord_b, angmom_b_max, exps_b):
-            seen["args"] = (coord_moment, order_moment_max, coord_a, angmom_a_max, exps_a, coord_b, angmom_b_max, exps_b)
-            return G.GSpecTable([G.Aff.of(order_moment_max) + 1, G.Aff.of(angmom_b_max) + 1, G.Aff.of(angmom_a_max) + 1], (3, Kb, Ka), "S0")
+            def callee(coord_moment, order_moment_max, coord_a, angmom_a_max, exps_a, coord_b, angmom_b_max, exps_b):
+                seen_["args"] = (coord_moment, order_moment_max, coord_a, angmom_a_max, exps_a, coord_b, angmom_b_max, exps_b)
+                return G.GSpecTable([G.Aff.of(order_moment_max) + 1, G.Aff.of(angmom_b_max) + 1, G.Aff.of(angmom_a_max) + 1], (3, Kb, Ka), "S0")
 
-        try:
             with bind.patched((mod, "np", G.GNp(mod.np)), (mod, "range", G.grange), (mod, "_compute_multipole_moment_integrals_intermediate", callee)):
-                out = mod._compute_differential_operator_integrals_intermediate(nd, A, na, ea, B, nb, eb)
-        finally:
-            G.CTX[0] = None
-        pfx = "anyLdiff"
+                return mod._compute_differential_operator_integrals_intermediate(nd, A, na, ea, B, nb, eb), seen_
+
+        def setup(C_):
+            C_.assumed.append(("ge", G.Aff.var("nd"), G.Aff.of(1)))  # precondition: at least one derivative
+
+        cases = G.run_cases(sizes, body, setup)
+        for cn, (C, (out, seen)) in enumerate(cases):
+            self._check_case(M, C, out, seen, sizes, Ka, Kb, A, B, ea, eb, nd, nb, na, "anyLdiff" if len(cases) == 1 else "anyLdiff/case%d" % cn)
+
+    def _check_case(self, M, C, out, seen, sizes, Ka, Kb, A, B, ea, eb, nd, nb, na, pfx):
+        import z3
+
         a_ = seen.get("args")
         M.true(pfx + "/pre@moment-recursion/called", a_ is not None, "the overlap table is requested from the multipole-moment recursion")
         if a_ is None:
@@ -409,7 +425,9 @@ class DiffRecursionAnyL:
         st, mdl = G.check_valid(_sizes_premise(env0, sizes) + [env0("nd") >= 1, p6 >= 0, p5 >= 0, p4 >= 0],
                                 G._cons_z3(ret["cons"], env0) == z3.And(p6 <= env0("nd"), p5 <= env0("nb"), p4 <= env0("na")))
         M._rec(pfx + "/returned-view/extent-is-(nd+1,nb+1,na+1)", st, "z3-lia", G.LAST_SECS[0], detail=mdl or "", cex=_cex(mdl))
-        check_events(M, C, sizes, tails, candidates, base_case, pfx=pfx, domain=domain, returned=[ret], extra_prem=lambda env: [env("nd") >= 1])
+        cp = _case_premise(C, sizes)
+        check_events(M, C, sizes, tails, candidates, base_case, pfx=pfx, domain=domain, returned=[ret],
+                     extra_prem=lambda env: [env("nd") >= 1] + (cp(env) if cp else []))
 
 
 class OneElecVerticalAnyL:
@@ -839,25 +857,33 @@ class OneElecKernelAnyL(OneElecVerticalAnyL):
         da, db = M.vec("da", (Ka, Ma)), M.vec("db", (Kb, Mb))
         sizes = ["la", "lb"]
         la, lb = G.Aff.var("la"), G.Aff.var("lb")
-        C = G.Ctx(sizes)
-        C.allow_extent_exponents = True
-        G.CTX[0] = C
+        def body(C_):
+            def boys(orders, T):
+                Tarr = np.asarray(T, dtype=object)
+                if not isinstance(orders, G.GIota) or orders.ndim != 4 or orders.axis != 0 or Tarr.ndim < 4 or Tarr.shape[-4] != 1:
+                    raise alg.Undecided("Boys function called with orders / argument of an unexpected form")
+                data = np.empty(Tarr.shape, dtype=object)
+                for pos in itertools.product(*[range(n) for n in Tarr.shape]):
+                    data[pos] = C_.named_atom("F", G.Aff.var("p4"), pos[-3:])
+                return G.GVal(data, {4: [G.SymAxis(G.Aff.of(0), [orders.D])]}, [])
 
-        def boys(orders, T):
-            Tarr = np.asarray(T, dtype=object)
-            if not isinstance(orders, G.GIota) or orders.ndim != 4 or orders.axis != 0 or Tarr.ndim < 4 or Tarr.shape[-4] != 1:
-                raise alg.Undecided("Boys function called with orders / argument of an unexpected form")
-            data = np.empty(Tarr.shape, dtype=object)
-            for pos in itertools.product(*[range(n) for n in Tarr.shape]):
-                data[pos] = C.named_atom("F", G.Aff.var("p4"), pos[-3:])
-            return G.GVal(data, {4: [G.SymAxis(G.Aff.of(0), [orders.D])]}, [])
-
-        try:
             with bind.patched((mod, "np", G.GNp(mod.np)), (mod, "range", G.grange), (mod, "factorial2", gfactorial2)):
-                out = mod._compute_one_elec_integrals(pts, boys, A, la, ea, da, B, lb, eb, db)
-        finally:
-            G.CTX[0] = None
-        pfx = "anyLcoulK"
+                return mod._compute_one_elec_integrals(pts, boys, A, la, ea, da, B, lb, eb, db)
+
+        def setup(C_):
+            C_.allow_extent_exponents = True
+
+        cases = G.run_cases(sizes, body, setup)
+        for cn, (C, out) in enumerate(cases):
+            self._check_case(M, C, out, sizes, shape, A, B, pts, ea, eb, da, db, la, lb, "anyLcoulK" if len(cases) == 1 else "anyLcoulK/case%d" % cn)
+
+    def _check_case(self, M, C, out, sizes, shape, A, B, pts, ea, eb, da, db, la, lb, pfx):
+        import z3
+
+        Ka, Kb = shape["K"]
+        N = shape["N"]
+        Ma, Mb = shape.get("M", [2, 1])
+        cp = _case_premise(C, sizes)
         M.true(pfx + "/returns-a-value-over-the-horizontal-table", isinstance(out, G.GVal) and C.ntab == 2 and len(out.reads) == 1, "two tables; the result is one slice of the second, scaled")
         if not isinstance(out, G.GVal) or len(out.reads) != 1:
             return
@@ -909,7 +935,7 @@ class OneElecKernelAnyL(OneElecVerticalAnyL):
         doms = {0: dom_v, 1: dom_h}
         retv = dict(kind="read", tid=0, idx=(G.Aff.of(0), G.Aff.var("rx"), G.Aff.var("ry"), G.Aff.var("rz")), loops=[], seq=None, bounds=[],
                     cons=[("ge", G.Aff.var(v), G.Aff.of(0)) for v in ("rx", "ry", "rz")] + [("lt", G.Aff.var("rx") + G.Aff.var("ry") + G.Aff.var("rz"), la + lb + 1)])
-        check_events(M, C, sizes, vt, cand_v, base_v, pfx=pfx + "/vertical", domain=dom_v, tid=0, domains=doms, returned=[retv])
+        check_events(M, C, sizes, vt, cand_v, base_v, pfx=pfx + "/vertical", domain=dom_v, tid=0, domains=doms, returned=[retv], extra_prem=cp)
 
         def pnorm(alpha, l):
             return ((alpha * 2 / M.SF.pi) ** S.Fraction(3, 4) if hasattr(S, "Fraction") else None)
@@ -944,7 +970,7 @@ class OneElecKernelAnyL(OneElecVerticalAnyL):
             return out_
 
         ret = out.reads[0]
-        check_events(M, C, sizes, ht, cand_h, base_h, pfx=pfx + "/horizontal", domain=dom_h, tid=1, domains=doms, returned=[ret], returned_on_domain_only=True)
+        check_events(M, C, sizes, ht, cand_h, base_h, pfx=pfx + "/horizontal", domain=dom_h, tid=1, domains=doms, returned=[ret], returned_on_domain_only=True, extra_prem=cp)
         # the result: index map, extent, and value = H / sqrt(double factorials)
         pv = [G.Aff.var("p%d" % s_) for s_ in (9, 8, 7, 6, 5, 4)]  # result axes a_x a_y a_z b_x b_y b_z
         want = [pv[3].key(), pv[4].key(), pv[5].key(), pv[0].key(), pv[1].key(), pv[2].key()]
